@@ -517,6 +517,9 @@ class Interp:
         self.frames.append((fn, m, self_obj))
         try:
             env: Dict[str, Any] = dict(base_env or {})  # (a closure starts from the environment it was defined in)
+            env.pop("__nonlocal__", None)
+            if base_env is not None:
+                env["__outer__"] = base_env
             a = fn.args
             pos = [x.arg for x in a.posonlyargs + a.args]
             for p_ in pos + [x.arg for x in a.kwonlyargs]:
@@ -801,6 +804,9 @@ class Interp:
             return
         if isinstance(st, ast.Pass):
             return
+        if isinstance(st, ast.Nonlocal):
+            env.setdefault("__nonlocal__", set()).update(st.names)  # writes to these names go to the enclosing function's variables as well
+            return
         if isinstance(st, (ast.FunctionDef, ast.AsyncFunctionDef)):
             env[st.name] = ("closure", st, env, m)
             return
@@ -986,6 +992,13 @@ class Interp:
     def assign(self, t, v, env, m):
         if isinstance(t, ast.Name):
             env[t.id] = v
+            if t.id in env.get("__nonlocal__", ()):
+                outer = env.get("__outer__")
+                while outer is not None:
+                    if t.id in outer or "__outer__" not in outer:
+                        outer[t.id] = v
+                        break
+                    outer = outer.get("__outer__")
         elif isinstance(t, (ast.Tuple, ast.List)):
             vs = list(v)
             stars = [k for k, e in enumerate(t.elts) if isinstance(e, ast.Starred)]
@@ -1051,6 +1064,13 @@ class Interp:
     def truth(self, v):
         if isinstance(v, np.ndarray):
             raise AnalysisError("truth of array")
+        if isinstance(v, Obj) and v.cls is not None and v.kind in ("obj", "self"):
+            # an object of a repository class: __bool__, else __len__, else true
+            if self.repo.lookup(v.cls, "__bool__") is not None:
+                return bool(self.method(v, "__bool__", [], {}, None))
+            if self.repo.lookup(v.cls, "__len__") is not None:
+                return self.method(v, "__len__", [], {}, None) != 0
+            return True
         return bool(v)
 
     def _yield(self, e, env, m):
@@ -1269,6 +1289,11 @@ class Interp:
         """what a for loop / comprehension iterates: an enumeration class yields its members in definition order"""
         if isinstance(v, tuple) and len(v) == 2 and v[0] == "class" and self.ev.is_enum(v[1]):
             return [EnumMember(v[1].qualname, k_, mv_) for k_, mv_ in self.ev.enum_members(v[1]).items()]
+        if isinstance(v, Obj) and v.cls is not None and v.kind in ("obj", "self"):
+            if self.repo.lookup(v.cls, "__iter__") is not None:
+                return self._iterable(self.method(v, "__iter__", [], {}, None))
+            if self.repo.lookup(v.cls, "__getitem__") is not None and self.repo.lookup(v.cls, "__len__") is not None:
+                return [self.method(v, "__getitem__", [i_], {}, None) for i_ in range(self.method(v, "__len__", [], {}, None))]
         return v
 
     def _hashable(self, k):
@@ -1285,6 +1310,12 @@ class Interp:
             return a is b
         if isinstance(op, ast.IsNot):
             return a is not b
+        if isinstance(op, (ast.In, ast.NotIn)) and isinstance(b, Obj) and b.cls is not None and b.kind in ("obj", "self"):
+            if self.repo.lookup(b.cls, "__contains__") is not None:
+                r_ = self.truth(self.method(b, "__contains__", [a], {}, None))
+            else:
+                r_ = any(self._eq(a, x) for x in self._iterable(b))
+            return r_ if isinstance(op, ast.In) else not r_
         if isinstance(op, ast.In):
             return any(self._eq(a, x) for x in b)
         if isinstance(op, ast.NotIn):
@@ -1665,6 +1696,13 @@ class Interp:
         "operator.add": lambda a, b: a + b, "operator.sub": lambda a, b: a - b, "operator.mul": lambda a, b: a * b, "operator.mod": lambda a, b: a % b,
         "operator.floordiv": lambda a, b: a // b, "operator.eq": lambda a, b: a == b, "operator.ne": lambda a, b: a != b, "operator.lt": lambda a, b: a < b,
         "operator.le": lambda a, b: a <= b, "operator.gt": lambda a, b: a > b, "operator.ge": lambda a, b: a >= b, "operator.neg": lambda a: -a,
+        "operator.not_": lambda a: not a, "operator.truth": lambda a: bool(a), "operator.and_": lambda a, b: a & b, "operator.or_": lambda a, b: a | b,
+        "operator.xor": lambda a, b: a ^ b, "operator.lshift": lambda a, b: a << b, "operator.rshift": lambda a, b: a >> b, "operator.pow": lambda a, b: a ** b,
+        "operator.is_": lambda a, b: a is b, "operator.is_not": lambda a, b: a is not b, "operator.index": lambda a: a.__index__(),
+        "operator.truediv": lambda a, b: a / b, "operator.abs": abs, "operator.concat": lambda a, b: a + b,
+        "bisect.bisect": __import__("bisect").bisect, "bisect.bisect_right": __import__("bisect").bisect_right, "bisect.bisect_left": __import__("bisect").bisect_left,
+        "collections.OrderedDict": dict, "collections.Counter": __import__("collections").Counter, "collections.ChainMap": __import__("collections").ChainMap,
+        "collections.deque": __import__("collections").deque,
     }
 
     def call(self, e: ast.Call, env, m):
@@ -1979,6 +2017,11 @@ class Interp:
                     return StructModel(args[0])
                 if name == "functools.partial" and args:
                     return ("partial", args[0], list(args[1:]), dict(kwargs))
+                if name == "functools.reduce" and len(args) >= 2:
+                    import functools as _ft
+                    f_ = args[0]
+                    call_ = f_ if callable(f_) else (lambda a_, b_, p_=f_: self.apply(p_, [a_, b_], {}, node, m))
+                    return _ft.reduce(call_, list(self._iterable(args[1])), *args[2:])
                 if name in ("itertools.dropwhile", "itertools.takewhile", "itertools.filterfalse") and len(args) == 2:
                     import itertools as _it
                     pred_ = args[0]
